@@ -177,6 +177,10 @@ def h_kkt(E, shape):
             E.prove(implies(land(nz, s0 < thr), land(tot >= 1.0, tot < 4.0)), "C20.kkt_tiny_nonzero_columns_normalised")
 
 
+def np_arr(v):
+    return arr(v)
+
+
 def h_dispatch(E, shape):
     """create_scaling evaluates the user's functions at the scaling point and hands them to the
     right constructor"""
@@ -194,8 +198,9 @@ def h_dispatch(E, shape):
     snaps = common.snapshot([("params.scaling_primal", params.scaling_primal), ("params.scaling_dual", params.scaling_dual)])
     gv = E.uf("g0", xs)
     cv = E.uf("c0", xs) if m else 0.0
-    Jv = E.uf("J0_0", xs) if m else 0.0
-    Hv = E.uf("H0_0", xs, *ys)
+    const = shape.get("policy") == "cached"  # one constant Jacobian / Hessian object for every point
+    Jv = (E.uf("J0_0") if const else E.uf("J0_0", xs)) if m else 0.0
+    Hv = E.uf("H0_0") if const else E.uf("H0_0", xs, *ys)
     for v in (gv, cv, Jv, Hv):
         if core.is_sym(v):
             a = sabs(v)
@@ -244,3 +249,15 @@ def h_dispatch(E, shape):
                     s0 = s0 + sabs(K[r][c])
                     nz = lor(nz, K[r][c] != 0)
             E.prove(implies(land(nz, s0 >= 1e-10), land(tot >= 1.0, tot < 4.0)), "C20.kkt_column_sums_in_1_4")
+    if shape.get("reuse") and kind != "KKT":
+        # the scaling is a function of the user's data: using it (evaluating the scaled problem, twice)
+        # and asking again gives the same weights
+        SP = scale.ScaledProblem(user, sc)
+        xi = np_arr([ld(xs, vw[0])])
+        for _ in range(2):
+            SP.obj_grad(xi)
+            if m:
+                SP.cons_jac(xi)
+            SP.lag_hess(xi, np_arr([0.0] * m))
+        sc2 = scale.create_scaling(user, params, params.scaling_primal, params.scaling_dual)
+        E.prove(common.eq_all(items(sc2.var_weights), vw) and common.eq_all(items(sc2.cons_weights), cw), "C20.scaling_is_a_function_of_the_problem_data")
